@@ -1,1 +1,31 @@
-(* C07_dcm placeholder *)
+(* C07_dcm.v — matrix -> quaternion functions with a 3x3 branch and an N-by-3x3 branch: hughes (all matrices), chiaverini (away from
+   half-turns). *)
+From Coq Require Import Reals List Lra.
+From AhrsLib Require Import Base.
+From AhrsGen Require Import C07gen_R.
+From AhrsProps Require Import C07_tac.
+Import ListNotations.
+Open Scope R_scope.
+
+Lemma clip_pos t : -1 < t -> 0 < Rmin (Rmax t (-1)) 3 + 1.
+Proof. intros H. unfold Rmin, Rmax. repeat destr_dec; lra. Qed.
+
+(* not a half-turn (trace > -1): the scalar branch's all-zero fallback is not taken and both branches agree *)
+Lemma chiaverini_twin_partial r00 r01 r02 r10 r11 r12 r20 r21 r22 : -1 < r00 + r11 + r22 ->
+  C07_chiaverini_b1_R r00 r01 r02 r10 r11 r12 r20 r21 r22 = C07_chiaverini_s_R r00 r01 r02 r10 r11 r12 r20 r21 r22.
+Proof.
+  intros H. pose proof (clip_pos _ H) as Hc.
+  unfold C07_chiaverini_b1_R, C07_chiaverini_s_R. cbv zeta. pos_sqrt_hyps. repeat dec1; same_val.
+Qed.
+Lemma chiaverini_twin2_partial k00 k01 k02 k10 k11 k12 k20 k21 k22 r00 r01 r02 r10 r11 r12 r20 r21 r22 : -1 < r00 + r11 + r22 ->
+  C07_chiaverini_b2_R k00 k01 k02 k10 k11 k12 k20 k21 k22 r00 r01 r02 r10 r11 r12 r20 r21 r22 =
+  C07_chiaverini_s_R r00 r01 r02 r10 r11 r12 r20 r21 r22.
+Proof.
+  intros H. pose proof (clip_pos _ H) as Hc.
+  unfold C07_chiaverini_b2_R, C07_chiaverini_s_R. cbv zeta. pos_sqrt_hyps. repeat dec1; same_val.
+Qed.
+
+(* hughes: the N-by-3x3 branch mirrors the 3x3 branch for ALL matrices (pure-quaternion branch, sign rule, normalisation) *)
+Lemma hughes_twin r00 r01 r02 r10 r11 r12 r20 r21 r22 :
+  C07_hughes_b1_R r00 r01 r02 r10 r11 r12 r20 r21 r22 = C07_hughes_s_R r00 r01 r02 r10 r11 r12 r20 r21 r22.
+Proof. unfold C07_hughes_b1_R, C07_hughes_s_R. cbv zeta. repeat dec1; same_val. Qed.
